@@ -332,6 +332,27 @@ class LBCheck(BaseCheck):
     check_removed()
     check_loads()
     check_membership()
+    # behavioural cross-check at the boundary (heap balancer, every member healthy): under
+    # saturating load exactly the current members receive traffic
+    if kind == 'heap' and opened[0] and not ss.pending and open_mode != 'flaky' and len(out.violations) < 6:
+      for c in w.channels:
+        if c.down and not c.close_steps:
+          c.set_up()
+      env.advance(0.6)
+      truth = set(ss.truth)
+      if truth and all(c._state == OPEN for c in w.heap_channels()):
+        classes.add('saturation-probe')
+        probes = [w.dispatch() for _ in range(len(truth))]
+        got = [r['channel'].ep for r in probes if r['channel'] is not None]
+        ob('membership:')
+        if set(got) != truth or len(got) != len(set(got)):
+          violate('membership:traffic', 'with %d requests outstanding the members that received one are %r, the '
+                  'server set is %r' % (len(truth), sorted(map(str, got)), sorted(map(str, truth))),
+                  {'missing': bool(truth - set(got)), 'extra': bool(set(got) - truth)})
+        for r in probes:
+          if r['channel'] is not None and r in r['channel'].inflight:
+            w.complete(r, 'reply')
+        env.settle()
     for r in w.requests:
       if len(r['deliveries']) != 1:
         diag['delivery-count'] = diag.get('delivery-count', 0) + 1
